@@ -113,6 +113,51 @@ Definition exp_gzip (pr : proto) (opts : list opt) (e : env) : bool :=
 Definition exp_tmo (opts : list opt) (e : env) : Z :=
   resolve (last_some opt_tmo opts) (rd_timeout (spec_tmo e)) (rd_timeout (gen_tmo e)) default_timeout_ns.
 
+(** ** the statements WITHOUT side conditions: what each family does with a provided value
+
+    Precedence (option over signal-specific variable over generic variable over default) holds
+    for every input.  What differs between the families is only how a provided value is read;
+    these per-family conventions are written down here from the exporters' documentation:
+    - the trace and metric exporters trim white space around a variable's value, the log
+      exporters read it as it is ([norm_env]);
+    - for gRPC the trace and metric exporters dial path.Join(host, path) of an endpoint
+      variable's URL (so that unix:///socket works), the log exporter dials the host ([rd_target]);
+    - the trace and metric HTTP exporters join the signal path to a generic endpoint with
+      path.Join and finally clean the chosen path (trim, path.Clean, default when empty, leading
+      '/'); the log HTTP exporter strips the trailing slashes of a generic endpoint's path,
+      appends the signal path, and sends the chosen path as net/http does (leading '/', "/" when
+      empty) ([fam_gen_path], [fam_path_final]). *)
+Definition norm_val (f : family) (v : bytes) : bytes := match f with FLog => v | _ => trim_space v end.
+Definition norm_env (f : family) (e : env) : env :=
+  {| gen_ep := norm_val f (gen_ep e); spec_ep := norm_val f (spec_ep e);
+     gen_hdr := norm_val f (gen_hdr e); spec_hdr := norm_val f (spec_hdr e);
+     gen_comp := norm_val f (gen_comp e); spec_comp := norm_val f (spec_comp e);
+     gen_tmo := norm_val f (gen_tmo e); spec_tmo := norm_val f (spec_tmo e);
+     gen_insec := norm_val f (gen_insec e); spec_insec := norm_val f (spec_insec e) |}.
+Definition rd_target (f : family) (pr : proto) (v : bytes) : option bytes :=
+  option_map (fun u => match f, pr with
+                       | FLog, _ | _, PHttp => u_host u
+                       | _, PGrpc => path_join (u_host u) (u_path u)
+                       end) (rd_url v).
+Definition fam_gen_path (f : family) (v : bytes) : option bytes :=
+  option_map (fun u => match f with
+                       | FLog => trim_right_slash (u_path u) ++ sig_path f
+                       | _ => path_join (u_path u) (sig_path f)
+                       end) (rd_url v).
+Definition fam_path_final (f : family) (p : bytes) : bytes :=
+  match f with
+  | FLog => match p with [] => [47] | c :: _ => if c =? 47 then p else 47 :: p end
+  | _ => let t := path_clean (trim_space p) in
+         if bytes_eqb t dot then sig_path f else if starts_with [47] t then t else 47 :: t
+  end.
+Definition gen_host (f : family) (pr : proto) (opts : list opt) (e : env) : bytes :=
+  match user_conn pr opts with
+  | Some t => t
+  | None => resolve (last_some opt_host opts) (rd_target f pr (spec_ep e)) (rd_target f pr (gen_ep e)) (default_host pr)
+  end.
+Definition gen_path (f : family) (opts : list opt) (e : env) : bytes :=
+  fam_path_final f (resolve (last_some opt_path opts) (rd_path_specific (spec_ep e)) (fam_gen_path f (gen_ep e)) (sig_path f)).
+
 (** ** side conditions under which the statements are made *)
 
 (** Environment values carry no white space at either end. *)
